@@ -4,8 +4,15 @@
 # usage: tools/baseline.sh [repo-dir]   exit 0 iff every stable test passes
 set -u
 # one run at a time: regprocessor's TestZMQAuth binds a fixed 127.0.0.1 port, two concurrent runs hang
-exec 9>/var/tmp/baseline.lock
-flock 9
+# BASELINE_NETNS=1: run inside a private network namespace (own loopback, own abstract sockets) instead of
+# serialising, so several runs can go side by side
+if [ "${BASELINE_NETNS:-0}" = 1 ] && [ -z "${BASELINE_IN_NS:-}" ]; then
+  exec env BASELINE_IN_NS=1 unshare -n bash -c 'ip link set lo up; exec "$0" "$@"' "$0" "$@"
+fi
+if [ -z "${BASELINE_IN_NS:-}" ]; then
+  exec 9>/var/tmp/baseline.lock
+  flock 9
+fi
 SRC=${1:-/repo}
 S=$(mktemp -d /var/tmp/cjv.baseline.XXXXXX)
 trap 'rm -rf "$S"' EXIT
